@@ -256,6 +256,113 @@ _start:
 %meta ioatt out0 cp:bm, type:output, index:0
 `
 
+// c07Handwritten3: a literal load whose code alternatives (rsets5/6/7) all have the width of the widest
+// instruction, next to explicit uses of two of them in different sections: which alternative is taken
+// must not depend on the order in which the sections are visited.
+const c07Handwritten3 = `%meta bmdef global registersize:8
+%section proga .romtext iomode:async
+	entry _start
+_start:
+	mov r0, 5
+	rsets7 r1, 100
+loop:
+	i2r r2, i0
+	add r0, r2
+	r2o r0, o0
+	j loop
+%endsection
+%section progb .romtext iomode:async
+	entry _start
+_start:
+	rsets6 r0, 2
+loop:
+	i2r r1, i0
+	add r0, r1
+	r2o r0, o0
+	j loop
+%endsection
+%meta cpdef cpa romcode:proga, execmode:ha
+%meta cpdef cpb romcode:progb, execmode:ha
+%meta iodef in0 type:io
+%meta iodef mid type:io
+%meta iodef out0 type:io
+%meta ioatt in0 cp:bm, type:input, index:0
+%meta ioatt in0 cp:cpa, type:input, index:0
+%meta ioatt mid cp:cpa, type:output, index:0
+%meta ioatt mid cp:cpb, type:input, index:0
+%meta ioatt out0 cp:cpb, type:output, index:0
+%meta ioatt out0 cp:bm, type:output, index:0
+`
+
+// c07GoTwoChannels: a goroutine started with two channel arguments (what the new processor is attached
+// to, and in which order, must not depend on the order of a map of arguments).
+const c07GoTwoChannels = `package main
+
+import (
+	"bondgo"
+)
+
+func worker(a chan uint8, b chan uint8) {
+	var x uint8
+	var y uint8
+	for {
+		x = <-a
+		y = <-b
+		x = x + y
+	}
+}
+
+func main() {
+	var in0 bondgo.Input
+	var out0 bondgo.Output
+	var v uint8
+	var a chan uint8
+	var b chan uint8
+	in0 = bondgo.Make(bondgo.Input, 3)
+	out0 = bondgo.Make(bondgo.Output, 5)
+	go worker(a, b)
+	for {
+		v = bondgo.IORead(in0)
+		a <- v
+		b <- v
+		bondgo.IOWrite(out0, v)
+	}
+}
+`
+
+// c07GoTwoValues: the same with two arguments passed by value.
+const c07GoTwoValues = `package main
+
+import (
+	"bondgo"
+)
+
+func worker(a uint8, b uint8) {
+	var out1 bondgo.Output
+	out1 = bondgo.Make(bondgo.Output, 7)
+	for {
+		a = a + b
+		bondgo.IOWrite(out1, a)
+	}
+}
+
+func main() {
+	var in0 bondgo.Input
+	var out0 bondgo.Output
+	var v uint8
+	var w uint8
+	in0 = bondgo.Make(bondgo.Input, 3)
+	out0 = bondgo.Make(bondgo.Output, 5)
+	v = 3
+	w = 5
+	go worker(v, w)
+	for {
+		v = bondgo.IORead(in0)
+		bondgo.IOWrite(out0, v)
+	}
+}
+`
+
 // callSections is a source of two or three code sections (three when mask >= 4); section k calls a
 // fragment when bit k of mask is set (bit 2 makes the third section exist and call).
 func callSections(mask int) string {
@@ -338,7 +445,11 @@ func runC07(r *evid.Run) {
 			if err != nil {
 				return map[string][]byte{"error": []byte(firstLine(err.Error()))}, nil
 			}
-			return map[string][]byte{"bm.json": mj}, nil
+			res := map[string][]byte{"bm.json": mj}
+			if req, err := os.ReadFile(filepath.Join(dir, "requirements.json")); err == nil {
+				res["requirements.json"] = req
+			}
+			return res, nil
 		}})
 	}
 	// BasmSem programs: two processors, every literal notation, macros
@@ -395,6 +506,9 @@ func runC07(r *evid.Run) {
 	basmRuns = r.Pick(32, 120)
 	basmJob("fragment-calls-in-three-sections", c07Handwritten1)
 	basmJob("dynamic-opcodes-in-three-orders", c07Handwritten2)
+	basmRuns = r.Pick(48, 120)
+	basmJob("literal-load-with-tied-alternatives", c07Handwritten3)
+	basmRuns = nRuns
 	for mask := 1; mask < 8; mask++ {
 		basmJob(fmt.Sprintf("fragment-calls-mask-%d", mask), callSections(mask))
 	}
@@ -445,6 +559,10 @@ func runC07(r *evid.Run) {
 		// goroutines on their own processors: the numbering of external ports must not depend on the run
 		bondgoJob(fmt.Sprintf("main-and-%d-workers", w), goWorkers(w), 8, r.Pick(40, 120))
 	}
+	// a goroutine started with two arguments (channels, values): the attachments and the order of the
+	// transfers must not depend on the run
+	bondgoJob("go-statement-with-two-channel-arguments", c07GoTwoChannels, 8, r.Pick(48, 120))
+	bondgoJob("go-statement-with-two-value-arguments", c07GoTwoValues, 8, r.Pick(48, 120))
 
 	// neuralbond and bmqsim
 	netPath, circPath := filepath.Join(scratch, "nets.ndjson"), filepath.Join(scratch, "circs.ndjson")
